@@ -188,6 +188,7 @@ def run(ctx):
     R.rule("C02-D3 code/name roles", 9, "encode looks names up and writes codes; decode the reverse")
     generic.lookup_attribute_facts(ctx, "C02-D3 code/name roles")
     flatten_rule(ctx)
+    leaf_acceptance(ctx)
     constructors_store_unchanged(ctx)
     children_embedded_by_value(ctx)
     cbstr_rule(ctx)
@@ -195,6 +196,88 @@ def run(ctx):
 
 
 # ---------------------------------------------------------------------------------------------
+def leaf_acceptance(ctx):
+    """C02-D1 pins, per leaf class, the *atoms* of what the description side requires of a value (type, length, range).  The same
+    atoms can be combined wrongly - `if value and ...` instead of `if value is not None and ...` lets every falsy value ('' / 0 /
+    b'' / [] / {} / False) through, `or` for `and` refuses legal ones - and a leaf that accepts more or less sends description values
+    to another alternative of the enclosing choice, i.e. to another encoding.  Decided by evaluating the constructor's refusals
+    (raise guards, base constructors followed) on sample values of every kind against the plain meaning of the atoms:
+    accepted iff None, or of a listed type and within the listed length / range."""
+    from sa.teval import teval, Unknown, Raised
+    R = ctx.report
+    S = ctx.schema
+    repo = ctx.repo
+    R.rule("C02-D1d leaf acceptance on sample values", 4, "per leaf class: the constructor refuses exactly the sample values its type / length / range atoms exclude")
+    samples = [None, "", "a", "ab", 0, 1, -1, 255, True, False, b"", b"a", b"ab", [], [1], (), {}, {"a": 1}, 1.5]
+    builtins_ = {"str": str, "int": int, "bytes": bytes, "dict": dict, "list": list, "tuple": tuple, "bool": bool, "float": float, "bytearray": bytearray}
+    ev = Evaluator(repo, inline_depth=3)
+    done = 0
+    for ci in S.reachable():
+        atoms = S.desc_predicates(ci, mnames=("__init__",))
+        init = None
+        for c in repo.mro(ci):
+            if c.name == "SuitObject":
+                break
+            if "__init__" in c.methods:
+                init = c.methods["__init__"]
+                break
+        if not atoms or init is None or any(a.startswith("chars:") for a in atoms):
+            continue
+        # atoms that come from from_obj overrides are not the constructor's: leave such classes to C02-D1
+        if any("from_obj" in c.methods for c in repo.mro(ci) if c.name not in ("SuitObject",) and c.module is ci.module and c is not ci and False):
+            continue
+        params = [a.arg for a in init.node.args.args if a.arg != "self"]
+        if len(params) != 1:
+            continue
+        types = tuple(builtins_[n] for a in atoms if a.startswith("type:") for n in a[5:].split("|") if n in builtins_)
+        if not types or any(n not in builtins_ for a in atoms if a.startswith("type:") for n in a[5:].split("|")):
+            continue
+
+        def expected(v):
+            if v is None:
+                return True
+            if not isinstance(v, types):
+                return False
+            for a in atoms:
+                if a.startswith("lenNotEq") and hasattr(v, "__len__") and len(v) != int(a[8:]):
+                    return False
+                if a.startswith("rangeLt") and isinstance(v, (int, float)) and not isinstance(v, bool) and v < int(a[7:]):
+                    return False
+            return True
+        if any(a.startswith(("len", "range")) and not a.startswith(("lenNotEq", "rangeLt")) for a in atoms):
+            continue
+        try:
+            outs = ev.outcomes(init)
+        except AnalysisError:
+            continue
+        raises = [o for o in outs if o.kind == "raise"]
+        P_ = Sym("param:" + params[0])
+        bad, unknown = None, False
+        for v in samples:
+            refused = False
+            try:
+                for o in raises:
+                    if all(bool(teval(c_, {P_: v, "param:" + params[0]: v})) for c_ in o.conds):
+                        refused = True
+                        break
+            except (Unknown, Raised):
+                unknown = True
+                break
+            except Exception:
+                # the guard itself fails on this value (len() of an int ...): the constructor raises - a refusal
+                refused = True
+            if refused == expected(v) and bad is None:
+                bad = (v, refused)
+        if unknown:
+            continue
+        done += 1
+        R.check("C02-D1d leaf acceptance on sample values", bad is None, f"{ci.name}({', '.join(atoms)})", mod=init.module, node=init.node, function=ctx.fq(init),
+                expected="accepted iff None, or of a listed type and within the listed length / range",
+                found=f"{bad[0]!r} is {'refused' if bad[1] else 'accepted'}" if bad else "", key_extra=ci.name)
+    if not done:
+        raise AnalysisError("C02-D1d: no leaf constructor could be evaluated")
+
+
 def encode_entries(ctx):
     repo = ctx.repo
     entries = []
